@@ -19,7 +19,8 @@ META = {
                    "exactly once, on success nothing is dropped and the buffer is handed over exactly once holding the mapped "
                    "elements; same for boxes and for the safe fallback path. The model is tied to /repo on every run: the real "
                    "fallible_map_vec/box (cfg(chalk_verif) re-export) are run on drop-logging element types (two identical-layout "
-                   "pairs, three non-identical pairs incl. same-size/different-alignment, a ZST pair) under a watching global "
+                   "pairs, one element type folded to itself through the real TypeFoldable::try_fold_with impls of Vec<T>/Box<T> "
+                   "with a scripted failing folder, three non-identical pairs incl. same-size/different-alignment, a ZST pair) under a watching global "
                    "allocator for ALL lengths 0..N, every failure position, both modes, and boxes; the observed log must equal "
                    "the machine's log evaluated inside Coq."),
     "level_note": ("Trusted: Coq kernel; the meaning given to ptr::read / ptr::write / drop_in_place / Vec::from_raw_parts / "
@@ -29,16 +30,17 @@ META = {
                    "wrapper). The fallback path (std's into_iter().map().collect(), Box::new) is described, not verified; its "
                    "clean-up order is compared only up to canonicalisation."),
     "design_ref": "DESIGN.md section 4 C27, section 7 H1",
+    "bins": ["mem"],
     "assumptions": [
         "ptr::read/ptr::write/drop_in_place/from_raw_parts behave as the abstract machine's primitives (ownership level)",
         "the mapper either returns Ok with a value, or fails having dropped the element it was given (what a TypeFolder does)",
-        "correspondence is exhaustive only up to the stated length bound and for the six element-type pairs of the harness",
+        "correspondence is exhaustive only up to the stated length bound and for the seven element-type pairs of the harness",
     ],
     "quick_s": 30, "thorough_s": 600,
 }
 
-VEC_VARIANTS = ["Same", "Same4", "DiffSmall", "DiffBig", "DiffAlign", "Zst"]
-LAYOUT = {"Same": "LSame", "Same4": "LSame", "DiffSmall": "LDiff", "DiffBig": "LDiff", "DiffAlign": "LDiff", "Zst": "LZst"}
+VEC_VARIANTS = ["Same", "Same4", "Fold", "DiffSmall", "DiffBig", "DiffAlign", "Zst"]
+LAYOUT = {"Same": "LSame", "Same4": "LSame", "Fold": "LSame", "DiffSmall": "LDiff", "DiffBig": "LDiff", "DiffAlign": "LDiff", "Zst": "LZst"}
 OFF = 1000
 MODES = {"Err": "RErr", "Panic": "RPanic"}
 
@@ -264,6 +266,10 @@ THEOREMS = ["vec_map_safe", "box_map_safe", "vec_fallback_map_safe", "box_fallba
 
 def run(ctx):
     ok, why = ctx.proof_stage("Props.C27", THEOREMS)
+    ctx.cov["trusted_base"] = sorted(set(ctx.cov["trusted_base"]) | {
+        "meaning of ptr::read / ptr::write / drop_in_place / Vec::from_raw_parts / Box::from_raw as the abstract machine's primitives (coq/Mem/InPlace.v)",
+        "observation devices of harness/src/bin/mem.rs: tagged Drop impls, watching / poisoning / quarantining global allocator, allocation counting",
+    })
     core.build_harness(bins=["mem"])
     ctx.cov["element_layouts_size_align"] = check_layouts()
     nmax = ctx.n(8, 64)
@@ -279,7 +285,7 @@ def run(ctx):
     for c, o, ev, whyc in results:
         ctx.count("%s/%s" % (c["kind"], c["variant"]), case_key(c), nontrivial=c["n"] >= 1)
     wanted = [("Vec", "Same", 5, 0, 3, "Panic"), ("Vec", "Same4", 4, 3, 0, "Err"), ("Vec", "Same", 3, 0, None, None),
-              ("Vec", "DiffAlign", 4, 0, 2, "Err"), ("Vec", "Zst", 3, 0, 1, "Panic"), ("Box", "Same", 1, 0, 0, "Panic")]
+              ("Vec", "DiffAlign", 4, 0, 2, "Err"), ("Vec", "Fold", 4, 0, 1, "Panic"), ("Vec", "Zst", 3, 0, 1, "Panic"), ("Box", "Same", 1, 0, 0, "Panic")]
     for c, o, ev, _ in results:
         if (c["kind"], c["variant"], c["n"], c["extra"], c["pos"], c["mode"]) in wanted:
             ctx.sample({"case": harness_line(c), "coq_case": sx.to_coq(coq_case(c)), "real_log": o})
